@@ -56,7 +56,8 @@ def bfs_history(make, apply, canon, letters, on_step=None, full_obs=None,
       res.executions += 1
       res.transitions += 1
       res.table[(c, l)] = (obs, post)
-      if on_step: on_step(hist, l, c, obs, post)
+      if on_step and on_step(hist, l, c, obs, post) is False:
+        continue          # the oracle already failed on this step: do not explore beyond a divergence
       if post not in res.states:
         if len(res.states) >= max_states:
           res.closed = False
